@@ -210,7 +210,7 @@ def gen_symbol(rng, cli, seq=False, maxlen=40):
         content = int(content.lstrip('0') or '0')
     if seq:
         if rng.random() < 0.6:
-            kw['symbol_count'] = rng.randint(1, min(6, len(str(content))))
+            kw['symbol_count'] = rng.randint(1, min(6 if rng.random() < 0.8 else 16, len(str(content))))
         else:
             kw['version'] = rng.randint(1, 3)
     else:
